@@ -5,7 +5,7 @@ CONSTANTS
   Methods <- AllMethods
   Paths <- AllPaths
   Counter <- CounterStr
-  Vers = {1, 2}
+  Vers = {1, 2, 3}
   MaxSeq = 3
   MaxUpd = 100
   Depth = 16
